@@ -141,7 +141,7 @@ def run_sim_case(case, mon, prop, extra_monitors=None, nontrivial=None):
     return h
 
 
-def preemption_case(rng, algo="priority", oom=False):
+def preemption_case(rng, algo="priority", oom=False, identical=False):
     """Load pattern that makes the priority scheduler preempt: multi-operator batch/interactive
     pipelines fill the pools (10% each), then queries arrive and must wait for an operator
     boundary of a running container; suspended work is resumed later."""
@@ -161,6 +161,13 @@ def preemption_case(rng, algo="priority", oom=False):
             for s in o["segs"]:
                 big = oom and rng.random() < 0.15
                 s["mem"] = job_ram * (rng.choice([1.5, 3.0]) if big else rng.choice([0.01, 0.1, 0.5]))
+        if identical and j > 0:
+            import copy
+            spec = copy.deepcopy(first_spec)
+            spec["pid"] = f"f{j}"
+            t = 0
+        else:
+            first_spec = spec
         arrivals.setdefault(str(t), []).append(spec)
     for j in range(rng.randint(2, 10)):
         t = rng.randint(1, 40)
